@@ -86,7 +86,14 @@ func propC20(c *Ctx) {
 			})
 			return
 		}()
-		c.Check("R20.1", "loadTasks/enabled-test", appendCall.Pos(), len(enT) > 0 && lm.reg.Guarded(appendCall, enT), "a task is built only when the integration's Enabled flag is set")
+		enOK := len(enT) > 0 && lm.reg.Guarded(appendCall, enT)
+		if !enOK && lm.igVal != nil {
+			// the disabled ones removed up front: for _, ig := range slices.DeleteFunc(all, func(ig) bool { return !ig.Enabled })
+			if s, _, ok := elemOf(lm.igVal); ok && enabledFilterOf(lm, s) {
+				enOK = true
+			}
+		}
+		c.Check("R20.1", "loadTasks/enabled-test", appendCall.Pos(), enOK, "a task is built only when the integration's Enabled flag is set")
 		// look-ups
 		nLk := 0
 		lm.reg.AllInstrs(func(in ssa.Instruction) {
@@ -179,6 +186,9 @@ func propC20(c *Ctx) {
 					if f := staticCallee(call); f != nil && f.Name() == "AllIntegrations" {
 						okOuter = true
 					}
+				}
+				if enabledFilterOf(lm, s) {
+					okOuter = true
 				}
 			}
 		}
@@ -498,6 +508,10 @@ func propC20(c *Ctx) {
 	// isCurrentStop: v is the channel of the Manager's current token (read from the field)
 	isCurrentStop := func(reg *Region, v ssa.Value) bool {
 		if isLoadOfField(v, fRestart) {
+			return true
+		}
+		// the receiver of a method of the channel type (func (g generation) stop() { close(g) }): what it is called on
+		if rv := reg.Resolve(stripConv(v)); rv != v && isLoadOfField(stripConv(rv), fRestart) {
 			return true
 		}
 		base, ok := chanMember(v)
@@ -1254,4 +1268,53 @@ func structOfField(pkg *types.Package, f *types.Var) *types.Struct {
 		}
 	}
 	return nil
+}
+
+// enabledFilterOf: the list s is slices.DeleteFunc(AllIntegrations()'s result, pred) with pred(ig) = !ig.Enabled
+func enabledFilterOf(lm *loadTasksModel, s ssa.Value) bool {
+	call, k := resultOf(lm.reg.Resolve(stripConv(s)))
+	if call == nil || k != 0 || len(call.Call.Args) != 2 {
+		return false
+	}
+	if n := calleeName(call); n != "slices.DeleteFunc" && !strings.HasPrefix(n, "slices.DeleteFunc[") {
+		return false
+	}
+	src, k2 := resultOf(lm.reg.Resolve(stripConv(call.Call.Args[0])))
+	if src == nil || k2 != 0 {
+		return false
+	}
+	if f := staticCallee(src); f == nil || f.Name() != "AllIntegrations" {
+		return false
+	}
+	var pred *ssa.Function
+	switch x := stripConv(call.Call.Args[1]).(type) {
+	case *ssa.MakeClosure:
+		pred = x.Fn.(*ssa.Function)
+	case *ssa.Function:
+		pred = x
+	}
+	if pred == nil || pred.Blocks == nil || len(pred.Params) != 1 {
+		return false
+	}
+	fEnabled := lm.c.W.Field("shovel/config", "Integration", "Enabled")
+	n := 0
+	for _, r := range returnsOf(pred) {
+		for _, lf := range phiLeaves(returnValues(r)[0]) {
+			n++
+			u, ok := lf.Val.(*ssa.UnOp)
+			if !ok || u.Op != token.NOT {
+				return false
+			}
+			f, base := loadedField(stripConv(u.X))
+			if f == nil {
+				if fv, isF := stripConv(u.X).(*ssa.Field); isF {
+					f, base = fieldOf(fv)
+				}
+			}
+			if f != fEnabled || !isParamOrCopy(base, pred, 0) {
+				return false
+			}
+		}
+	}
+	return n > 0
 }
